@@ -380,6 +380,22 @@ where
                 }
                 vars
             }
+            LTermInner::Compound(compound) => {
+                fn compound_anyvars<U: User, E: Engine<U>>(
+                    compound: &dyn CompoundObject<U, E>,
+                    vars: &mut Vec<LTerm<U, E>>,
+                ) {
+                    for child in compound.children() {
+                        match child.as_term() {
+                            Some(term) => vars.extend(term.anyvars()),
+                            None => compound_anyvars(child, vars),
+                        }
+                    }
+                }
+                let mut vars = vec![];
+                compound_anyvars(compound.as_ref(), &mut vars);
+                vars
+            }
             _ => {
                 if self.is_any() {
                     vec![self.clone()]
